@@ -148,5 +148,11 @@ inline std::vector<Entry> build_catalog(int level, bool with_nan_args)
   static const char* TBN[4] = { "sin_angle_tab", "cos_angle_tab", "tan_tab", "square_root_tab" }; const unsigned sz[4] = { 361, 361, 256, 256 };
   for( int w = 0; w < 4; ++w ) { Entry e; e.name = TBN[w]; e.call = [w](Shim* s, u64 a, u64) { return static_cast<u64>(s->fm_table(w, static_cast<unsigned>(a))); }; for( unsigned i = 0; i < sz[w]; ++i ) e.A.push_back(i); e.afmt = fmt_i; e.an = "index"; cat.push_back(e); }
   }
+  { // the streaming operator of <fixedmath/iostream.h>: the text it writes, as an FNV-1a hash (identical text in every configuration)
+  Entry e; e.name = "operator<< (std::ostream, fixed_t)";
+  e.call = [](Shim* s, u64 a, u64) { char buf[96]; size_t n = s->fm_stream(static_cast<i64>(a), buf, sizeof buf); u64 h = 1469598103934665603ull ^ n;
+                                     for( size_t i = 0; i < std::min(n, sizeof buf); ++i ) { h ^= static_cast<unsigned char>(buf[i]); h *= 1099511628211ull; } return h; };
+  e.A = Su; e.afmt = fmt_i; e.an = "x"; cat.push_back(e);
+  }
   return cat;
   }
